@@ -289,6 +289,13 @@ func (fx *Fx) evalUnary(st *State, e *ast.UnaryExpr) []Val {
 		}
 		// address of a field / element: an abstract interior pointer
 		loc := fx.lvalue(st, x)
+		if loc.kind == locStructAt && len(loc.path) == 1 {
+			// a field of a struct that lives on the heap (boxed local, *p): the field's own heap location
+			if _, named, _ := structOf(loc.T); named != nil {
+				p0 := loc.path[0]
+				loc = &Loc{kind: locHeap, key: fieldKey(named, p0.field), srt: c.sortOf(p0.T), ref: loc.ref, T: p0.T}
+			}
+		}
 		switch loc.kind {
 		case locElem:
 			// pointer to a slice element: abstract, injective in (array, index); see DESIGN (element pointers)
@@ -301,11 +308,11 @@ func (fx *Fx) evalUnary(st *State, e *ast.UnaryExpr) []Val {
 			fx.readLoc(st, loc) // records the declared facts (nonnil, ranges) about the current content
 			id := fx.locIdentity(st, loc)
 			t := c.define("ip", "Int", id)
-			st.assume(fmt.Sprintf("(> %s 0)", t))
+			st.assume(fmt.Sprintf("(< %s 0)", t)) // interior addresses never coincide with allocated objects
 			fx.c.interior[t] = loc
 			// snapshot: a read through a copy of this pointer whose origin is no longer known sees the current value
 			// (sound while the field is not written through the other alias afterwards; noted as an assumption)
-			if pt := loc.locType(); pt != nil && loc.kind == locHeap && strings.HasPrefix(loc.key, "P:") {
+			if pt := loc.locType(); pt != nil && loc.kind == locHeap {
 				if s, named, _ := structOf(pt); s == nil || opaqueNamed(named) {
 					cur := fx.readLoc(st, loc)
 					hs := "(Array Int " + cur.S + ")"
@@ -625,6 +632,7 @@ func (fx *Fx) chanRecv(st *State, ch Val, n ast.Node) (Val, Val) {
 	}
 	ok := c.freshConst("rok", "Bool")
 	rv := Val{T: v, S: es, GT: el}
+	fx.boundRefs(st, v, el, 0)
 	if isNamed(el, "time", "Time") {
 		// clocks promise a lower bound for what their channels deliver (IClock.Until / After)
 		// (assumed of every IClock: each receive from a clock channel yields a time >= the channel's bound)
@@ -661,4 +669,33 @@ func (fx *Fx) wfSlice(st *State, t string) {
 	}
 	fx.c.wfDone[k] = true
 	st.assume(fmt.Sprintf("(and (<= 0 (s_off %s)) (<= 0 (s_len %s)) (<= (s_len %s) (s_cap %s)) (>= (s_base %s) 0) (=> (= (s_base %s) 0) (= (s_cap %s) 0)))", t, t, t, t, t, t, t))
+}
+
+// boundRefs: every reference contained in an existing value (received from a channel, taken out of an interface)
+// denotes an object that already exists: it is not one this activation allocates later.
+func (fx *Fx) boundRefs(st *State, term string, t types.Type, depth int) {
+	if depth > 3 || t == nil {
+		return
+	}
+	switch u := types.Unalias(t).Underlying().(type) {
+	case *types.Pointer, *types.Chan, *types.Map:
+		st.assume(fmt.Sprintf("(<= %s %s)", term, st.alloc))
+		if rf := fx.c.refTypeFact(term, t); rf != "" {
+			st.assume(rf)
+		}
+	case *types.Slice:
+		st.assume(fmt.Sprintf("(<= (s_base %s) %s)", term, st.alloc))
+		if ra := fx.c.rangeAssume(term, t); ra != "" {
+			st.assume(ra)
+		}
+	case *types.Struct:
+		if opaqueNamed(t) {
+			return
+		}
+		srt := fx.c.sortOf(t)
+		for i := 0; i < u.NumFields(); i++ {
+			f := u.Field(i)
+			fx.boundRefs(st, fmt.Sprintf("(%s__%s %s)", srt, f.Name(), term), f.Type(), depth+1)
+		}
+	}
 }
